@@ -36,7 +36,13 @@ impl CProg {
         let _ = self.child.wait();
     }
     pub fn ask(&mut self, line: &str) -> Result<String, String> {
-        writeln!(self.sin, "{line}").map_err(|e| format!("C program ({}) is gone: {e}", self.label))?;
+        self.ask_bytes(line.as_bytes())
+    }
+    /// (a path is a byte string: the C API can be handed names that are not UTF-8)
+    pub fn ask_bytes(&mut self, line_bytes: &[u8]) -> Result<String, String> {
+        let line = String::from_utf8_lossy(line_bytes).to_string();
+        let line = line.as_str();
+        self.sin.write_all(line_bytes).and_then(|_| self.sin.write_all(b"\n")).map_err(|e| format!("C program ({}) is gone: {e}", self.label))?;
         self.sin.flush().map_err(|e| e.to_string())?;
         match self.lines.recv_timeout(std::time::Duration::from_secs(CALL_TIMEOUT_S)) {
             Ok(l) => Ok(l),
@@ -360,6 +366,32 @@ fn differential(ctx: &Ctx, bin: &Path, label: &'static str, t: &mut Tally, sampl
         if cl != r1 {
             t.add("C17:c-differs-from-rust:open", format!("{}: clockbound_open says '{cl}', the Rust client says '{r1}'", fc.label), json!({"check": "C17", "part": "open", "library": label, "case": fc.label, "c": cl, "rust": r1}));
         }
+    }
+    // (b') the C API takes the path as bytes: a name that is not valid UTF-8 (a directory created under a legacy
+    // locale) must reach open(2) as given. The Rust client, whose API takes &str, opens the same file under an
+    // ASCII hard link; same inode, same moment, same answer.
+    {
+        use std::os::unix::ffi::OsStrExt;
+        let d8 = dir.join(std::ffi::OsStr::from_bytes(b"clockbound-caf\xe9"));
+        let _ = std::fs::create_dir_all(&d8);
+        let ascii = dir.join("seg-ascii-name");
+        let _ = std::fs::remove_file(&ascii);
+        let mut w = ShmWriter::new(&ascii).map_err(|e| e.to_string())?;
+        w.write(&Rec { as_of_s: 5000, as_of_ns: 0, va_s: 6000, va_ns: 0, bound: 4321, drift: 1000, reserved: 0, status: 2 }.to_ceb());
+        let legacy = d8.join("shm");
+        let _ = std::fs::remove_file(&legacy);
+        std::fs::hard_link(&ascii, &legacy).map_err(|e| e.to_string())?;
+        n += 1;
+        let r1 = rust_now(&ascii, ts_ns(1_700_000_000, 5), ts_ns(5001, 0), (0, -1), &abi);
+        let mut cmd: Vec<u8> = b"N ".to_vec();
+        cmd.extend_from_slice(legacy.as_os_str().as_bytes());
+        cmd.extend_from_slice(b" 1700000000 5 5001 0 0 -1");
+        let cl = c.ask_bytes(&cmd)?;
+        if c_core(&cl) != r1 {
+            t.add("C17:c-differs-from-rust:path-bytes", format!("the same segment under a path that is not valid UTF-8 (…/clockbound-caf\\xe9/shm): the C library says '{cl}', the Rust client (ASCII hard link to the same file) says '{r1}'"), json!({"check": "C17", "part": "non-UTF-8 path", "library": label, "c": cl, "rust": r1}));
+        }
+        drop(w);
+        crate::seqmc::engine::close_leaked_fds(&ascii);
     }
     // (c) sequences: both libraries keep their context open while the segment changes underneath them.
     // Every sequence of up to 3 segment mutations (a complete publication, an update left in flight, a
